@@ -123,11 +123,14 @@ class EndpointsEmitter:
         for op in operations:
             method_name = NameSanitizer.sanitize_method_name(op.operation_id)
             if method_name in seen_methods:
-                seen_methods[method_name] += 1
-                new_op_id = f"{op.operation_id}_{seen_methods[method_name]}"
-                op.operation_id = new_op_id
-            else:
-                seen_methods[method_name] = 1
+                # Keep counting until the suffixed name is itself unused (an operation may already be
+                # called e.g. "a_2"), and register the new name so that later operations see it.
+                base_operation_id, base_method_name = op.operation_id, method_name
+                while method_name in seen_methods:
+                    seen_methods[base_method_name] += 1
+                    op.operation_id = f"{base_operation_id}_{seen_methods[base_method_name]}"
+                    method_name = NameSanitizer.sanitize_method_name(op.operation_id)
+            seen_methods[method_name] = 1
 
     def emit(self, operations: List[IROperation], output_dir_str: str) -> List[str]:
         """Render endpoint client files per tag under <output_dir>/endpoints.
